@@ -611,7 +611,7 @@ pub fn run(args: &Args, rep: &mut Report) {
     verif::set_sink(Some(sink));
     let miri = cfg!(miri);
     let small = miri || args.get("small") == Some("1");
-    let total: u64 = args.get_u64("n", if args.tier_thorough { 20_000 } else { 400 });
+    let total: u64 = args.get_u64("n", if args.tier_thorough { 60_000 } else { 400 });
     let only: Option<u64> = args.case.as_ref().and_then(|c| c.parse().ok());
     let wall_limit = args.get_u64("wall_ms", 20_000);
     let mut signatures = std::collections::HashSet::new();
